@@ -351,6 +351,10 @@ cmd_ichain(char **tok, int nt)
 				}
 			}
 			for (int x = 0; x < np; x++) {
+				// the raw RESPONDENT's per-pipe send queue holds 2 messages and a device is
+				// best-effort under back-pressure: responses go one at a time so that no
+				// scheduling-dependent drop can occur (REQ/REP: depth 64, a burst is fine)
+				if (surv && vt_quiesce() != 0) CK(-1);
 				int e2 = nng_sendmsg(rep[k], pend[x], 0);
 				if (e2 != 0) {
 					nng_msg_free(pend[x]);
